@@ -146,6 +146,14 @@ SNIPPETS = [
     ("s[0] == t", {"s": ("str", STRS), "t": ("str", CHARS)}),
     ("(s or 'x')[0]", {"s": ("str", STRS)}),
     ("round(a / 2)", {"a": ("int", SMALL)}),
+    ("s.rjust(5)", {"s": ("str", STRS)}),
+    ("s.ljust(4)", {"s": ("str", STRS)}),
+    ("s.rjust(0) + s.ljust(1)", {"s": ("str", STRS)}),
+    ("s[:1].isalpha()", {"s": ("str", STRS + ["Zz", "_a", "{", "@"])}),
+    ("f'{s:>4}|{a:<3}|{a:>2}'", {"s": ("str", STRS[:6]), "a": ("int", INTS + [10, -10, 123])}),
+    ("f'{abs(a)}{\"+\" if a > 0 else \"-\"}'.rjust(2)", {"a": ("int", INTS)}),
+    ("int(a / 2)", {"a": ("int", INTS)}),
+    ("int(a / b)", {"a": ("int", INTS), "b": ("int", [-2, 3])}),
 ]
 
 
